@@ -269,6 +269,12 @@ func (s *DiscoveryServer) initConnection(node *core.Node, con *Connection, ident
 	// push context, leading the proxy to have a stale state until the next push.
 	verifGate("ads.initConnection.beforeAddCon")
 	s.addCon(con.ID(), con)
+	// A push may have installed a new global push context and enumerated the connections between the read of
+	// the global push context above and addCon: this connection is then not part of that push, and would be
+	// initialized from the context before it, leaving the proxy stale until the next push. Any push that does
+	// not see the connection has installed its context before this point, so read it again. Pushes that do see
+	// it are only handled once initialization is complete.
+	proxy.LastPushContext = s.globalPushContext()
 	// Register that initialization is complete. This triggers to calls that it is safe to access the
 	// proxy
 	defer con.MarkInitialized()
